@@ -162,7 +162,57 @@ fn check_case(ctx: &mut Ctx, g: &Gram, specs: &[InputSpec]) -> Result<(), Fail> 
     Ok(())
 }
 
+/// Many tiny rules and rules that are wide choices of references: several call stacks at the
+/// furthest position and >= 4 failing children under one rule (the collapse threshold).
+fn wide_choice_grammar() -> proptest::strategy::BoxedStrategy<Gram> {
+    use proptest::prelude::*;
+    let lit = prop_oneof![Just("a"), Just("b"), Just("c"), Just("é"), Just("ab"), Just("1")].prop_map(|s| GE::Str(s.to_string()));
+    let leafrule = prop_oneof![
+        4 => lit.clone(),
+        1 => (lit.clone(), lit.clone()).prop_map(|(a, b)| GE::Seq(Box::new(a), Box::new(b))),
+        1 => Just(GE::Range('a', 'c')),
+        1 => Just(GE::Insens("Ab".into())),
+        1 => lit.clone().prop_map(|a| GE::Neg(Box::new(a))),
+    ];
+    (proptest::collection::vec(leafrule, 5..9), proptest::collection::vec(proptest::collection::vec(any::<u8>(), 2..7), 1..4), any::<bool>())
+        .prop_map(|(leaves, choices, eoi)| {
+            let nl = leaves.len();
+            let nc = choices.len();
+            let mut g = Gram { rules: vec![] };
+            // choice rules first (they refer forward to leaves and to later choice rules)
+            for (ci, refs) in choices.iter().enumerate() {
+                let mut it = refs.iter().map(|r| {
+                    let span = nl + (nc - ci - 1);
+                    GE::Ref((nc.min(ci + 1) + (*r as usize % span.max(1))).min(nc + nl - 1) as u8)
+                });
+                let mut e = it.next().unwrap();
+                for x in it {
+                    e = GE::Choice(Box::new(e), Box::new(x));
+                }
+                if ci == 0 {
+                    let tail = if eoi { GE::Builtin("EOI") } else { GE::Str("c".into()) };
+                    e = GE::Seq(Box::new(GE::Opt(Box::new(GE::Str("a".into())))), Box::new(GE::Seq(Box::new(e), Box::new(tail))));
+                }
+                g.rules.push(GRule { name: format!("r{ci}"), ty: if ci % 3 == 2 { Ty::Silent } else { Ty::Normal }, expr: e });
+            }
+            for (li, e) in leaves.into_iter().enumerate() {
+                g.rules.push(GRule { name: format!("r{}", nc + li), ty: Ty::Normal, expr: e });
+            }
+            repair(&mut g);
+            g
+        })
+        .boxed()
+}
+
 pub fn run(ctx: &mut Ctx) {
+    {
+        let n = ctx.share(ctx.tier.pick(60_000, 1_000_000));
+        let strat = (wide_choice_grammar(), proptest::collection::vec(spec_strategy(), 8));
+        ctx.run_prop(n, 2, strat, |ctx, (g, specs)| {
+            ctx.class("stream:wide-choice");
+            check_case(ctx, g, specs)
+        });
+    }
     let cfg = GenCfg::standard(EXTRAS);
     let n = ctx.share(ctx.tier.pick(200_000, 4_000_000));
     let strat = (grammar_strategy(cfg), proptest::collection::vec(spec_strategy(), 6));
